@@ -63,7 +63,7 @@ func parseChainActs(s string) ([]chainAct, bool) {
 				return nil, false
 			}
 			out = append(out, chainAct{kind: k})
-		case 'e', 's', 'x', 'i', 'c', 'w', 'b', 'W', 'Y':
+		case 'e', 's', 'x', 'i', 'c', 'w', 'b', 'W', 'Y', 'q':
 			n, err := strconv.Atoi(tok[1:])
 			if err != nil || n < 0 {
 				return nil, false
@@ -116,6 +116,11 @@ func mkHandler(cr *chainRun, pos int, acts []chainAct) rux.HandlerFunc {
 				}()
 			case 'e':
 				cr.add("M%d.%d", pos, a.arg)
+			case 'q':
+				// a marker for the model; the real handler also records an error (c.AddError): these routers have no
+				// OnError handler, so nothing observable may depend on it
+				cr.add("M%d.%d", pos, a.arg)
+				c.AddError(fmt.Errorf("q%d", a.arg))
 			case 'n':
 				c.Next()
 			case 'R':
@@ -771,8 +776,10 @@ func genFiller(r *Rand, k int, rich bool) []string {
 	n := r.Intn(k + 1)
 	for i := 0; i < n; i++ {
 		switch x := r.Intn(20); {
-		case x < 8:
+		case x < 7:
 			out = append(out, "e"+strconv.Itoa(r.Intn(10)))
+		case x < 8:
+			out = append(out, "q"+strconv.Itoa(r.Intn(10)))
 		case x < 16:
 			out = append(out, "i"+strconv.Itoa(r.Intn(10)))
 		case x < 18 && rich:
